@@ -340,7 +340,8 @@ int mod_deregister(m_mod_t **mod, bool from_user) {
              * it has no more modules in it and is not a persistent ctx
              * (not when the module is being replaced, or the context torn down, by the library itself)
              */
-            if (from_user && c->state == M_CTX_IDLE && m_map_len(c->modules) == 0 && !(c->flags & M_CTX_PERSIST)) {
+            if (from_user && c->state == M_CTX_IDLE && m_map_len(c->modules) == 0 && !(c->flags & M_CTX_PERSIST) && ctx_is_current(c)) {
+                /* (still the context of this thread: module's on_stop() hook may have deregistered it, and registered a new one) */
                 ret = m_ctx_deregister();
             }
         }
